@@ -8,6 +8,6 @@ wt=$(mktemp -d /tmp/lltd-wt.XXXXXX); rmdir "$wt"
 git -C /repo worktree add -q --detach "$wt" HEAD || exit 2
 if [ -f "$what" ]; then git -C "$wt" apply "$(realpath "$what")" || { git -C /repo worktree remove --force "$wt"; exit 2; }
 else git -C "$wt" revert --no-commit "$what" >/dev/null || { git -C /repo worktree remove --force "$wt"; exit 2; }; fi
-VERIF_REPO="$wt" VERIF_BUILD="$wt/.vbuild" "$@"; rc=$?
+VERIF_REPO="$wt" VERIF_BUILD="$wt/.vbuild" VERIF_OUT="${VERIF_OUT:-$wt/.vout}" "$@"; rc=$?
 git -C /repo worktree remove --force "$wt"; git -C /repo worktree prune
 exit $rc
